@@ -53,6 +53,18 @@ var dirRe = regexp.MustCompile(`(?m)^//vx:(\w[\w-]*)\s*(.*)$`)
 var reachRe = regexp.MustCompile(`vxReach\("([^"]+)"\)`)
 var entryRe = regexp.MustCompile(`(?m)^func (Vx\w+)\(\)`)
 
+// propID is the property the run is for (-id): a //vx:param line may carry "<ID>.<tier>=<n>" to give a harness file
+// that several properties run (include.txt) a different bound under one of them
+var propID string
+
+func tierVal(tv map[string]int64, tier string) (int64, bool) {
+	if v, ok := tv[propID+"."+tier]; ok {
+		return v, true
+	}
+	v, ok := tv[tier]
+	return v, ok
+}
+
 func tierKV(s string) map[string]int64 {
 	r := map[string]int64{}
 	for _, f := range strings.Fields(s) {
@@ -311,7 +323,7 @@ func loadHarness(h *Harness, tier string, repo string) (*loaded, error) {
 	c := &Config{prog: prog, target: target, redirect: map[*ssa.Function]*ssa.Function{}, redirName: h.Redirect, noop: h.Noop,
 		unwind: h.Unwind, maxInstr: h.MaxInstr, concLimit: 4096, tier: tier, goMode: h.GoMode, params: map[string]int64{}}
 	for name, tv := range h.Params {
-		if v, ok := tv[tier]; ok {
+		if v, ok := tierVal(tv, tier); ok {
 			c.params[name] = v
 		}
 	}
@@ -601,6 +613,7 @@ func main() {
 	prof := flag.String("cpuprofile", "", "write cpu profile")
 	flag.IntVar(&progressEvery, "progress", 0, "print a progress line to stderr every N seconds (debug)")
 	flag.Parse()
+	propID = *id
 	if *prof != "" {
 		f, _ := os.Create(*prof)
 		pprof.StartCPUProfile(f)
@@ -655,7 +668,7 @@ func main() {
 		}
 		if ps := h.Params; len(ps) > 0 {
 			for name, kv := range ps {
-				if v, ok := kv[*tier]; ok {
+				if v, ok := tierVal(kv, *tier); ok {
 					ev.Bounds[filepath.Base(f)+":"+name] = v
 				}
 			}
@@ -867,6 +880,7 @@ func doReplay(path, repo, solver string) int {
 		fmt.Println("bad replay file", err)
 		return 2
 	}
+	propID = rec.Property
 	h, err := parseHarness(rec.Harness)
 	if err != nil {
 		fmt.Println(err)
